@@ -538,3 +538,176 @@ Fixpoint nosub (e : expr) : bool :=
 Definition arity_wfj (sch : list nat) (l r : fromc) (on : expr) (la ra : nat) : bool :=
   opt_eqb (from_arity sch l) (Some la) && nosub on.
 Definition joins_wf (sch : list nat) (q : query) : bool := wf_query (arity_wfj sch) q.
+
+(* ---------------------------------------------------------------- operator skeletons (correspondence with EXPLAIN) *)
+
+(* What is compared with the engine's EXPLAIN VERBOSE output: operator kinds, join types, counts.
+   Subquery expressions: the engine's planner (plan_subquery.rs, SubqueryPlanner::plan_expression) replaces the
+   input of the operator that holds the expression by a join of that input with the subquery's plan, one join
+   per subquery expression, in traversal order.  `lskel` reproduces that SHAPE (not its semantics):
+     uncorrelated scalar  : CrossJoin(input, Aggregate[first](sub))
+     uncorrelated EXISTS  : CrossJoin(input, Project[1](Aggregate[count](Limit 1 (sub))))
+     uncorrelated IN      : ComparisonJoin LEFT MARK (input, sub), one condition
+     correlated           : MagicJoin LEFT (scalar) / LEFT MARK (EXISTS, IN) (MaterializationScan(input), sub')
+   where sub' is the subquery's plan after the dependent-join push-down; the check compares sub' with the
+   subquery's own plan modulo the push-down artefacts (see vlib/c01plan.py). *)
+Inductive skop :=
+| KScan (t : nat)
+| KSingleRow
+| KExprList (nrows : nat)
+| KFilter
+| KProject (n : option nat)
+| KCrossJoin
+| KArbitraryJoin (k : jkind)
+| KComparisonJoin (k : jkind) (nconds : nat) (has_eq : bool)
+| KDependentJoin (k : jkind)
+| KAggregate (nkeys naggs : nat)
+| KDistinct
+| KSetop (all : bool)
+| KOrder (nkeys : nat)
+| KLimit (lim : option nat) (off : nat)
+| KMatScan
+| KMarkJoin (nconds : nat)                  (* ComparisonJoin LEFT MARK of an uncorrelated IN *)
+| KMagicJoin (mark : bool).                 (* MagicJoin LEFT (mark = false) / LEFT MARK *)
+
+Inductive sk := Sk (op : skop) (children : list sk).
+
+Inductive subkind := SubScalar | SubExists | SubIn.
+
+(* does an expression / a plan refer to a row outside itself?  `m` = number of rows of the environment that
+   belong to the expression / plan itself *)
+Fixpoint corr_expr (m : nat) (e : pexpr) : bool :=
+  match e with
+  | PConst _ => false
+  | PCol dd _ => Nat.leb m dd
+  | PCmp _ a b | PDistinct _ a b | PAnd a b | POr a b | PArith _ _ a b => corr_expr m a || corr_expr m b
+  | PNot a | PIsNull _ a | PNeg _ a => corr_expr m a
+  | PCase branches els =>
+      existsb (fun ct => match ct with (c, t) => corr_expr m c || corr_expr m t end) branches || corr_expr m els
+  | PInList _ a es => corr_expr m a || existsb (corr_expr m) es
+  | PExists _ l => corr_plan m l
+  | PInSub _ a l => corr_expr m a || corr_plan m l
+  | PScalar l => corr_plan m l
+  end
+with corr_plan (m : nat) (p : lplan) : bool :=
+  match p with
+  | LScan _ | LSingleRow => false
+  | LExprList rows => existsb (existsb (corr_expr m)) rows
+  | LFilter e c => corr_expr (S m) e || corr_plan m c
+  | LProject es c => existsb (corr_expr (S m)) es || corr_plan m c
+  | LProjectAll c | LDistinct c | LOrder _ c | LLimit _ _ c | LMaterializationScan c => corr_plan m c
+  | LCrossJoin l r | LSetop _ l r => corr_plan m l || corr_plan m r
+  | LArbitraryJoin _ cond _ _ l r => corr_expr (S m) cond || corr_plan m l || corr_plan m r
+  | LComparisonJoin _ conds _ _ l r =>
+      existsb (fun c => match c with (_, a, b) => corr_expr (S m) a || corr_expr (S m) b end) conds
+      || corr_plan m l || corr_plan m r
+  | LDependentJoin _ on _ l r =>
+      match on with None => false | Some c => corr_expr (S m) c end || corr_plan m l || corr_plan (S m) r
+  | LAggregate keys aggs c =>
+      existsb (corr_expr (S m)) keys || existsb (fun a => match a with (_, _, arg) => corr_expr (S m) arg end) aggs
+      || corr_plan m c
+  end.
+
+(* the subquery expressions of an expression, in the order plan_expression_inner meets them *)
+Fixpoint subqs (e : pexpr) : list (subkind * lplan) :=
+  match e with
+  | PConst _ | PCol _ _ => []
+  | PCmp _ a b | PDistinct _ a b | PAnd a b | POr a b | PArith _ _ a b => subqs a ++ subqs b
+  | PNot a | PIsNull _ a | PNeg _ a => subqs a
+  | PCase branches els =>
+      flat_map (fun ct => match ct with (c, t) => subqs c ++ subqs t end) branches ++ subqs els
+  | PInList _ a es => subqs a ++ flat_map subqs es
+  | PExists _ l => [(SubExists, l)]
+  | PInSub _ a l => subqs a ++ [(SubIn, l)]
+  | PScalar l => [(SubScalar, l)]
+  end.
+
+(* width of the rows of a plan (for the Project that re-exports a FROM subquery) *)
+Fixpoint plan_arity (sch : list nat) (p : lplan) : option nat :=
+  match p with
+  | LScan t => nth_error sch t
+  | LSingleRow => Some 0
+  | LExprList rows => match rows with [] => None | r :: _ => Some (length r) end
+  | LFilter _ c | LProjectAll c | LDistinct c | LOrder _ c | LLimit _ _ c | LMaterializationScan c => plan_arity sch c
+  | LProject es _ => Some (length es)
+  | LCrossJoin l r =>
+      match plan_arity sch l, plan_arity sch r with Some a, Some b => Some (a + b) | _, _ => None end
+  | LArbitraryJoin k _ la ra _ _ | LComparisonJoin k _ la ra _ _ =>
+      Some (match k with JSemi | JAnti => la | _ => la + ra end)
+  | LDependentJoin k _ ra l _ =>
+      match plan_arity sch l with
+      | Some la => Some (match k with JSemi | JAnti => la | _ => la + ra end)
+      | None => None
+      end
+  | LAggregate keys aggs _ => Some (length keys + length aggs)
+  | LSetop _ l _ => plan_arity sch l
+  end.
+
+Definition jop_is_eq (o : jop) : bool := match o with JOp CEq => true | _ => false end.
+
+Section Skel.
+  Variable sch : list nat.
+
+  Definition subq_node (kind : subkind) (corr : bool) (inp sub : sk) : sk :=
+    if corr then Sk (KMagicJoin (match kind with SubScalar => false | _ => true end)) [inp; sub]
+    else match kind with
+         | SubScalar => Sk KCrossJoin [inp; Sk (KAggregate 0 1) [sub]]
+         | SubExists => Sk KCrossJoin [inp; Sk (KProject (Some 1)) [Sk (KAggregate 0 1) [Sk (KLimit (Some 1) 0) [sub]]]]
+         | SubIn => Sk (KMarkJoin 1) [inp; sub]
+         end.
+
+  (* wrap_expr e inp: `inp` joined with the plan of every subquery expression of e, in the order of `subqs e` *)
+  Fixpoint wrap_expr (e : pexpr) (inp : sk) {struct e} : sk :=
+    match e with
+    | PConst _ | PCol _ _ => inp
+    | PCmp _ a b | PDistinct _ a b | PAnd a b | POr a b | PArith _ _ a b => wrap_expr b (wrap_expr a inp)
+    | PNot a | PIsNull _ a | PNeg _ a => wrap_expr a inp
+    | PCase branches els =>
+        wrap_expr els (fold_left (fun acc ct => match ct with (c, t) => wrap_expr t (wrap_expr c acc) end) branches inp)
+    | PInList _ a es => fold_left (fun acc x => wrap_expr x acc) es (wrap_expr a inp)
+    | PExists _ l => subq_node SubExists (corr_plan 0 l) inp (lskel l)
+    | PInSub _ a l => subq_node SubIn (corr_plan 0 l) (wrap_expr a inp) (lskel l)
+    | PScalar l => subq_node SubScalar (corr_plan 0 l) inp (lskel l)
+    end
+  with lskel (p : lplan) {struct p} : sk :=
+    match p with
+    | LScan t => Sk (KScan t) []
+    | LSingleRow => Sk KSingleRow []
+    | LExprList rows => Sk (KExprList (length rows)) [Sk KSingleRow []]
+    | LFilter e c => Sk KFilter [wrap_expr e (lskel c)]
+    | LProject es c => Sk (KProject (Some (length es))) [fold_left (fun acc x => wrap_expr x acc) es (lskel c)]
+    | LProjectAll c => Sk (KProject (plan_arity sch c)) [lskel c]
+    | LCrossJoin l r => Sk KCrossJoin [lskel l; lskel r]
+    | LArbitraryJoin k _ _ _ l r => Sk (KArbitraryJoin k) [lskel l; lskel r]
+    | LComparisonJoin k conds _ _ l r =>
+        Sk (KComparisonJoin k (length conds) (existsb (fun c => match c with (o, _, _) => jop_is_eq o end) conds))
+           [lskel l; lskel r]
+    | LDependentJoin k _ _ l r => Sk (KDependentJoin k) [lskel l; lskel r]
+    | LAggregate keys aggs c =>
+        Sk (KAggregate (length keys) (length aggs))
+           [fold_left (fun acc a => match a with (_, _, arg) => wrap_expr arg acc end) aggs
+                      (fold_left (fun acc x => wrap_expr x acc) keys (lskel c))]
+    | LDistinct c => Sk KDistinct [lskel c]
+    | LSetop all l r => Sk (KSetop all) [lskel l; lskel r]
+    | LOrder keys c => Sk (KOrder (length keys)) [lskel c]
+    | LLimit lim off c => Sk (KLimit lim off) [lskel c]
+    | LMaterializationScan c => Sk KMatScan [lskel c]
+    end.
+End Skel.
+
+(* what the engine's planner does not accept (it answers an error): a subquery or a reference to an
+   enclosing block inside JOIN ... ON; HAVING without grouping; LATERAL is not compared *)
+Fixpoint on_supported (e : expr) : bool :=
+  match e with
+  | EConst _ => true
+  | ECol dd _ => Nat.eqb dd 0
+  | ECmp _ a b | EDistinct _ a b | EAnd a b | EOr a b | EArith _ _ a b => on_supported a && on_supported b
+  | ENot a | EIsNull _ a | ENeg _ a => on_supported a
+  | ECase branches els =>
+      forallb (fun ct => match ct with (c, t) => on_supported c && on_supported t end) branches && on_supported els
+  | EInList _ a es => on_supported a && forallb on_supported es
+  | EExists _ _ | EInSub _ _ _ | EScalar _ => false
+  end.
+
+(* the fragment compared with EXPLAIN: every ON condition is `on_supported` *)
+Definition plan_supported (q : query) : bool := wf_query (fun _ _ e _ _ => on_supported e) q.
